@@ -310,6 +310,36 @@ def retarget(ctx):
     return z3.And(*conds)
 
 
+def retarget_decode(ctx):
+    """decoding depends on (word, CURRENT version) only: one context decodes
+    the same arbitrary 64-bit word under v1, then v2, then v1 again (and a
+    multi-block record word likewise); each result is the one the reference
+    layout of the version in force gives"""
+    from minecraft.networking.types import Position
+    pairs = [(404, 477), (477, 404), (47, 757), (757, 47), (441, 443)]
+    v1, v2 = pairs[concretize(ctx.int('pair', 0, len(pairs) - 1))]
+    cx = _ctx(v1)
+    data = ctx.bytes('word', 8)
+    w = word_of(bytes_items(data))
+    conds = []
+    for v in (v1, v2, v1):
+        cx.protocol_version = v
+        buf = new_buffer(data)
+        p = Position.read_with_context(buf, cx)
+        W = ctx.W
+        sx = z3.SignExt(W - 26, z3.Extract(63, 38, w))
+        if v >= 443:
+            sz = z3.SignExt(W - 26, z3.Extract(37, 12, w))
+            sy = z3.SignExt(W - 12, z3.Extract(11, 0, w))
+        else:
+            sy = z3.SignExt(W - 12, z3.Extract(37, 26, w))
+            sz = z3.SignExt(W - 26, z3.Extract(25, 0, w))
+        conds += [E(p.x) == sx, E(p.y) == sy, E(p.z) == sz,
+                  z3.BoolVal(remaining(buf) == 0)]
+    note_key(ctx, 'C04:retarget_decode:%d>%d' % (v1, v2))
+    return z3.And(*conds)
+
+
 def instances(tier, seed):
     out = [
         Instance('position', 'position', {}, W=96, budget_s=600),
@@ -322,6 +352,8 @@ def instances(tier, seed):
                  budget_s=300),
         Instance('record', 'record', {}, W=96, budget_s=600),
         Instance('retarget', 'retarget', {}, W=96, budget_s=600),
+        Instance('retarget_decode', 'retarget_decode', {}, W=96,
+                 budget_s=600),
         Instance('sentinel:position', 'position', {'sentinel': True}, W=96,
                  budget_s=600, expect='violation',
                  note='reference demanding x|y|z up to protocol 450 must be '
